@@ -328,7 +328,17 @@ impl SnapHook {
                     };
                     *causes.entry(c).or_insert(0) += 1;
                 }
-                let cause = causes.iter().max_by_key(|(_, n)| **n).map(|(c, _)| *c).unwrap_or("none");
+                // Links with a configured allowance of their own (streams waiting for accept(): concurrency limit +
+                // max_pending_accept_reset_streams; reset memory: max_concurrent_reset_streams; counted open streams) are
+                // part of the bound. When the records on the other links alone make the difference, the largest of
+                // *those* names the mechanism; otherwise the largest link overall.
+                let has_allowance = |c: &str| (is_server && c == "pending-accept") || c == "reset-memory" || c == "counted-open";
+                let without: usize = causes.iter().filter(|(c, _)| !has_allowance(c)).map(|(_, n)| *n).sum();
+                let cause = if without > 0 && unheld - without <= b.unheld_records {
+                    causes.iter().filter(|(c, _)| !has_allowance(c)).max_by_key(|(_, n)| **n).map(|(c, _)| *c).unwrap_or("none")
+                } else {
+                    causes.iter().max_by_key(|(_, n)| **n).map(|(c, _)| *c).unwrap_or("none")
+                };
                 Self::fail_dyn(st, "C18", format!("stream-records-exceed-configured-bound:{}:{}", side.name(), cause), format!("{} {}: {} stream records not held by the application > bound {} (slab={}, held by app={}); kept alive by {:?}; first unheld: {:?}", side.name(), at, unheld, b.unheld_records, s.slab_len, held, causes, s.streams.iter().filter(|x| x.ref_count == 0).take(4).map(|x| format!("{} {} counted={} q(send={} cap={} open={} push={} accept={} wu={} reset_exp={}) send_q_empty={} recv_q_empty={}", x.id, x.state, x.is_counted, x.is_pending_send, x.is_pending_send_capacity, x.is_pending_open, x.is_pending_push, x.is_pending_accept, x.is_pending_window_update, x.is_pending_reset_expiration, x.pending_send_empty, x.pending_recv_empty)).collect::<Vec<_>>()));
             }
             let recv_bound = b.recv_events + 3 * held + b.data_events.min(st.peer_data_frames);
